@@ -1,4 +1,4 @@
 SPECIFICATION Spec
-CONSTANTS N = 2  E = 2  Labels = {1, 3, 4, 5, 6}  IL = 1
+CONSTANTS N = 2  E = 2  Labels = {1, 3, 4, 5, 6}  IL = 1  CK = 2  CLabels = {1, 3, 4, 6}  CMaxN = 4
 INVARIANTS LayeredTheorem NumberingTheorem
 CHECK_DEADLOCK FALSE
